@@ -1,5 +1,6 @@
 import MxModel.Proofs.IOSpecClosed
 import MxModel.Proofs.IOKeys
+import MxModel.Proofs.IOSession
 /-!
 # C18 – an IOSpec lives exactly as long as a reference to its value
 
@@ -424,5 +425,32 @@ example : (match (stepR [] (run [] {} wSheet) (.setSheet 0 (.df 1) none)).2,
 example : (match (stepR [] (run [] {} (wSheet.take 3)) (.setSheet 0 (.df 0) none)).2 with
     | .ok () => true
     | _ => false) = true := by decide +kernel
+
+/-! ## Absolute paths: one file object per path for the whole session (`Kernels/IOSession.lean`)
+
+The recorded finding C18-absolute-io-shared as the hypothesis it is: `IOSession.AbsPrivate st m m'` - no file object
+of the session-wide group `None` serves both `m` and `m'`. -/
+
+/-- **A spec survives what other models do** (here: their `close`) - `Model.iospecs` of `m'`, with the files' keys,
+is unchanged.  Partial: `AbsPrivate` (C18-absolute-io-shared). -/
+theorem spec_survives_other_close_partial (st : IOSession.St) (m m' : Nat) (hne : m ≠ m')
+    (hdet : IOSession.SidDet st) (hpriv : IOSession.AbsPrivate st m m') :
+    IOSession.specsOf (IOSession.closeModel st m) m' = IOSession.specsOf st m' :=
+  (IOSession.closeModel_frame st m m' hne hdet hpriv).1
+
+/-- the negation: one object referenced from two models, its file under an absolute path - `get_spec_from_value`
+of the second model finds the first model's spec in group `None`, and closing the second deletes it -/
+example : ¬ (∀ (st : IOSession.St) (m m' : Nat), m ≠ m' → IOSession.SidDet st →
+    IOSession.specsOf (IOSession.closeModel st m) m' = IOSession.specsOf st m') := by
+  intro h
+  have := h IOSession.sharedValue 1 0 (by decide) (by decide +kernel)
+  revert this
+  decide +kernel
+
+/-- two models with sheets in one external workbook ARE a state of the session (the second `new_pandas` is
+accepted: one file object, two specs, two models) -/
+example : IOSession.sharedPath.ios.length = 1 ∧
+    (IOSession.specsOf IOSession.sharedPath 0).length = 1 ∧ (IOSession.specsOf IOSession.sharedPath 1).length = 1 := by
+  decide +kernel
 
 end MxModel.C18
